@@ -216,6 +216,14 @@ def close_fresh(name, loop):
     PROCS.pop(name, None)  # never run: not one of the processes the harness drives
     fresh.add_cleanup(_cb(fresh, 'cleanup'))
     fresh.close()
+    # ... and one that has terminated, was saved, is loaded again (the library does not close a process loaded in a terminal state),
+    # given a cleanup callback and closed by whoever loaded it
+    ended = CurProc(inputs={'name': name + '.ended', 'script': {'segments': [[]]}}, loop=loop)
+    PROCS.pop(name + '.ended', None)
+    ended.kill('never ran')
+    loaded = plumpy.Bundle(ended).unbundle(plumpy.LoadSaveContext(loop=loop))
+    loaded.add_cleanup(_cb(loaded, 'cleanup'))
+    loaded.close()
 
 
 def _cb(proc, tag):
